@@ -190,6 +190,14 @@ def encode_sequence(content, error=None, version=None, mode=None, mask=None,
     num_symbols = symbol_count or 16
     if version is not None:
         num_symbols = number_of_symbols_by_version(content, version, error, mode)
+        # The number above is an estimation, ensure that every chunk fits
+        capacity = consts.SYMBOL_CAPACITY[version][error]
+
+        def fits(chunk):
+            return one_item_segments(chunk, mode).bit_length_with_overhead(version, eci, is_sa=True) <= capacity
+
+        while num_symbols < 16 and not all(map(fits, divide_into_chunks(content, num_symbols))):
+            num_symbols += 1
     if num_symbols > 16:
         raise DataOverflowError(f'The data does not fit into Structured Append version {version}')
     chunks = divide_into_chunks(content, num_symbols)
